@@ -1,4 +1,4 @@
-//@ unit props=C02,C08,C12 tier=quick kind=unbounded timeout=180 funcs="<Frame as BitRepr>::write; <Frame as BitRepr>::count_bits; <Stream as BitRepr>::write" stubs="BitSink operations -> append-only ideal bit string contracts [proved for both real sinks by the C11 Kani units]; FrameHeader/SubFrame::write -> appends spec_bits(self), |spec_bits| == count_bits() [proved per component by the C08 Kani units]; FRAME_CRC.checksum -> crc16 [Kani unit c02_crc16_matches_rfc]; MemSink<u64>::{clear,reserve,align_to_byte,len,write_to_byte_slice} [C11 Kani units]" note="`reuse!(KEY, |buf| BODY)` is inlined with `buf` as an extra &mut parameter holding ARBITRARY contents (stronger than the real initial state: also proves independence of the scratch buffer's history, C10); `EXPR.map_err(F)?` rewritten to `match`"
+//@ unit props=C02,C08,C12,C10 tier=quick kind=unbounded timeout=180 funcs="<Frame as BitRepr>::write; <Frame as BitRepr>::count_bits; <Stream as BitRepr>::write" stubs="BitSink operations -> append-only ideal bit string contracts [proved for both real sinks by the C11 Kani units]; FrameHeader/SubFrame::write -> appends spec_bits(self), |spec_bits| == count_bits() [proved per component by the C08 Kani units]; FRAME_CRC.checksum -> crc16 [Kani unit c02_crc16_matches_rfc]; MemSink<u64>::{clear,reserve,align_to_byte,len,write_to_byte_slice} [C11 Kani units]" note="`reuse!(KEY, |buf| BODY)` is inlined with `buf` as an extra &mut parameter holding ARBITRARY contents (stronger than the real initial state: also proves independence of the scratch buffer's history, C10); `EXPR.map_err(F)?` rewritten to `match`"
 // Frame / stream assembly against an ABSTRACT sink (any user BitSink, every operation may fail):
 //   C02  frame = header ++ subframes ++ zero padding to a byte ++ CRC-16 of all previous frame bytes;
 //        a whole number of bytes; the precomputed branch emits exactly the stored bytes;
@@ -422,7 +422,7 @@ impl Frame {
 //|                     lemma_prefix_extend(p, padded, fb, fb + crcbits);
 //|                 }
 //|             }
-//@after `                .map_err(OutputError::<S>::from_sink)?;`
+//@before `dest.write(FRAME_CRC.checksum(`
 //|             proof {
 //|                 assert(dest.bits() == padded + fb);
 //|                 lemma_prefix_append(d0, zeros(pad8(d0.len())) + fb);
